@@ -39,8 +39,10 @@ def check_verify(case):
     import bits.ecmath as em
 
     d, z, k = case["d"], case["z"], case["k"]
-    rs = ec.ecdsa_sign(d, z, k)
     f = Fails()
+    if case["mut"]["kind"] == "aliased-key":
+        return _check_aliased_key(case, f)
+    rs = ec.ecdsa_sign(d, z, k)
     if rs is None:
         return ["degenerate-nonce"], f
     r, s = rs
@@ -90,6 +92,39 @@ def check_verify(case):
         f.expect(acc, f"verify/rejects-valid/{label}", repr(got)[:160])
     else:
         f.expect(not acc, f"verify/accepts-invalid/{label}", repr(got)[:160])
+    return cls, f
+
+
+def _check_aliased_key(case, f):
+    """A public key whose x field is x0 + p for a curve point (x0, y): not a valid curve point (the coordinate is not a
+    field element), although every formula that reduces mod p sees the point (x0, y). A signature that is valid for
+    (x0, y) is forged without a private key: R = aG + bP, r = x(R) mod n, s = r/b, z = a*s."""
+    import bits
+    import bits.ecmath as em
+
+    c = case["mut"]["c"]
+    y = None
+    while y is None:
+        y = ec.sqrt_mod((c * c * c + 7) % P)
+        if y is None:
+            c += 1
+    P0 = (c, y if case["mut"]["odd"] == (y & 1) else P - y)
+    a, b = case["d"], case["k"]
+    R = ec.add(ec.mul(a, ec.G), ec.mul(b, P0))
+    if R is None or R[0] % N == 0:
+        return ["degenerate-nonce"], f
+    r = R[0] % N
+    s_ = r * pow(b, -1, N) % N
+    z = a * s_ % N
+    if not ec.ecdsa_verify(P0, z, r, s_):
+        raise RuntimeError("C02 harness: forged signature is not valid for the reduced key")
+    cls = ["mut:aliased-key", "nt:expect-reject"]
+    got = attempt(em.verify, r, s_, (c + P, P0[1]), z)
+    f.expect(got is not True, "verify/accepts-invalid/aliased-key", repr(got)[:120])
+    dec = attempt(bits.point, b"\x04" + (c + P).to_bytes(32, "big") + P0[1].to_bytes(32, "big"))
+    if not raised(dec):
+        got2 = attempt(em.verify, r, s_, dec, z)
+        f.expect(got2 is not True, "verify/accepts-invalid/aliased-key-bytes", f"point() returned {dec!r}"[:160])
     return cls, f
 
 
@@ -301,8 +336,11 @@ def verify_cases(draw):
     d = draw(gen.scalars_valid())
     z = draw(st.one_of(st.sampled_from([0, 1, N - 1, N, N + 1, 2**256 - 1]), st.integers(0, 2**256 - 1)))
     k = draw(st.integers(1, N - 1))
-    kind = draw(st.sampled_from(["none", "flip", "flip", "flip", "set", "set", "neg-s", "z+n", "otherkey", "infinity"]))
+    kind = draw(st.sampled_from(["none", "flip", "flip", "flip", "set", "set", "neg-s", "z+n", "otherkey", "infinity", "aliased-key"]))
     m = {"kind": kind}
+    if kind == "aliased-key":
+        m["c"] = draw(st.integers(0, 2**32 + 900))
+        m["odd"] = draw(st.integers(0, 1))
     if kind == "flip":
         m["field"] = draw(st.sampled_from(["z", "r", "s", "px", "py"]))
         m["bit"] = draw(st.integers(0, 255))
@@ -374,7 +412,7 @@ def lows_cases(draw):
 def targets(tier):
     return [
         Target("verify-secp", check_verify, strategy=lambda tier: verify_cases(), budget={"quick": 640, "thorough": 10000},
-               required=["mut:s->n-s", "mut:z+n", "mut:u1G+u2P=infinity", "mut:other-key", "nt:expect-accept", "nt:expect-reject", "mut:flip-px"]),
+               required=["mut:s->n-s", "mut:z+n", "mut:u1G+u2P=infinity", "mut:other-key", "mut:aliased-key", "nt:expect-accept", "nt:expect-reject", "mut:flip-px"]),
         Target("sigverify-bytes", check_bytes, strategy=lambda tier: bytes_cases(), budget={"quick": 800, "thorough": 10000},
                required=["mut:der-struct", "mut:der-value", "mut:pk-hybrid", "mut:pk-prefix", "mut:pk-len-otherform", "mut:flag", "mut:msg", "mut:u1G+u2P=infinity", "mut:forged-under-x0-key", "nt:expect-accept", "nt:expect-reject", "nt:nonstandard-sighash-byte-00"]),
         Target("low-s", check_lows, strategy=lambda tier: lows_cases(), budget={"quick": 3000, "thorough": 40000},
